@@ -53,6 +53,7 @@ func init() {
 			ruleENCSize(c)
 			ruleLKOwn(c)
 			ruleEncPure(c)
+			ruleEncBuf0(c)
 			ruleCRCCompress(c, findReadFile(c.P))
 			c.Note("not decided: contents of the encodings appended by codec.Write (C01/C02); determinism of the compressors")
 		})
